@@ -16,7 +16,7 @@
 (***************************************************************************)
 EXTENDS XFloat, Json, CSV, IOUtils, FiniteSets
 
-CONSTANTS Family      \* "arith1" | "arith2" | "cmp" | "fn" | "str" | "substr" | "pred"
+CONSTANTS Family      \* "arith1" | "arith2" | "cmp" | "fn" | "str" | "substr" | "pred" | "extreme"
 
 VARIABLES di, part, expr
 vars == <<di, part, expr>>
@@ -73,6 +73,22 @@ SubNums == {Lit("0"), Lit("1"), Lit("2"), Lit("3"), Lit("1.5"), Lit("2.5"), Lit(
             Lit("9223372036854775808"), Neg(Lit("9223372036854775808")), Lit("10000000000000000000"), Lit("4294967297"),
             Neg(Lit("4294967295")), NaNLit, InfLit, Neg(InfLit)}
 
+\* the edges of the binary64 range: overflow to infinity, the smallest normal, subnormals, underflow to zero.
+\* XPath literals have no exponent, so the numerals are written out (309 digits, 324 fraction digits).
+MaxLit   == Lit("17976931348623157" \o ZeroStr(292))                    \* 1.7976931348623157e308, the largest double
+MaxUp    == Lit("17976931348623158" \o ZeroStr(292))                    \* still rounds to the largest double
+OverLit  == Lit("17976931348623159" \o ZeroStr(292))                    \* rounds to +Infinity
+E200     == Lit("1" \o ZeroStr(200))
+EM200    == Lit("0." \o ZeroStr(199) \o "1")
+MinNorm  == Lit("0." \o ZeroStr(307) \o "22250738585072014")            \* 2.2250738585072014e-308
+SubN     == Lit("0." \o ZeroStr(309) \o "123456789")                    \* a subnormal
+MinSub   == Lit("0." \o ZeroStr(323) \o "5")                            \* 5e-324, the smallest subnormal
+HalfMin  == Lit("0." \o ZeroStr(323) \o "2")                            \* 2e-324 rounds to zero
+HalfMinUp == Lit("0." \o ZeroStr(323) \o "25")                          \* 2.5e-324 rounds up to the smallest subnormal
+P128     == Lit("340282366920938463463374607431768211456")              \* 2^128
+Extremes == {MaxLit, MaxUp, OverLit, E200, EM200, MinNorm, SubN, MinSub, HalfMin, HalfMinUp, P128}
+ExtPartners == Extremes \cup {Lit("2"), Lit("0.5"), Lit("3"), Lit("10"), Lit("0.1"), Lit("1"), Lit("0")}
+
 ArithOps == <<"+", "-", "*", "div", "mod">>
 CmpOps == <<"=", "!=", "<", "<=", ">", ">=">>
 
@@ -97,6 +113,13 @@ PoolSets ==
                                 {Fn("string", Neg(x)) : x \in LeavesA}>>
                               \o [i \in 1 .. 4 |-> {Fn("string", Bin(ArithOps[i], x, y)) : x \in LeavesS \cup LitsCore, y \in LeavesS \cup LitsCore}]
 
+      [] Family = "extreme" -> [i \in 1 .. 4 |-> Bins(ArithOps[i], Extremes, ExtPartners) \cup Bins(ArithOps[i], ExtPartners, Extremes)]
+                                \o <<{Neg(x) : x \in Extremes} \cup Extremes \cup {Fn(f, x) : f \in {"floor", "ceiling"}, x \in Extremes}
+                                      \cup {Fn(f, Neg(x)) : f \in {"floor", "ceiling"}, x \in Extremes}>>
+                                \o [i \in 1 .. 6 |-> {Cmp(CmpOps[i], x, y) : x \in Extremes, y \in Extremes}
+                                                      \cup {Cmp(CmpOps[i], Bin("*", x, Lit("2")), y) : x \in Extremes, y \in Extremes}]
+      [] Family = "extremeq" -> <<Extremes \cup {Bin("*", x, Lit("2")) : x \in Extremes} \cup {Bin("div", x, Lit("2")) : x \in Extremes}
+                                  \cup {Bin("+", x, x) : x \in Extremes} \cup {Cmp("<", x, MaxLit) : x \in Extremes}>>
       [] Family = "substr" -> <<{Sub3(s, p, l) : s \in SubStrs, p \in SubNums, l \in SubNums},
                                 {Sub2(s, p) : s \in SubStrs, p \in SubNums \cup {Bin("div", Lit("7"), Lit("2")), Bin("-", Lit("0.3"), Lit("0.1"))}},
                                 {Sub3("abcdefghijkl", Bin(o, x, y), Lit("3")) : o \in {"div", "*", "-"}, x \in LitsCore, y \in LitsCore},
@@ -237,7 +260,7 @@ Value(e, vals) ==
 Init == di = 0 /\ part = 0 /\ expr = NoExpr
 
 \* the substring family is built from literals only: one document
-DocIds == IF Family = "substr" THEN 1 .. 2 ELSE 1 .. Len(FDocs)
+DocIds == IF Family \in {"substr", "extreme", "extremeq"} THEN 1 .. 1 ELSE 1 .. Len(FDocs)
 PickDoc  == di = 0 /\ \E d \in DocIds, p \in 1 .. NParts : di' = d /\ part' = p /\ expr' = NoExpr
 PickExpr == di > 0 /\ expr = NoExpr /\ \E e \in PoolSets[part] : expr' = e /\ UNCHANGED <<di, part>>
 
